@@ -188,6 +188,7 @@ fn parse_replay(path: &Path) -> Result<(Mode, Vec<u32>, Option<String>), String>
     let v: Value = serde_json::from_str(&s).map_err(|e| format!("{}: {}", path.display(), e))?;
     let mode = match v.get("mode").and_then(|m| m.as_str()) {
         Some("direct") => Mode::Direct,
+        Some("bytes") => Mode::Bytes,
         _ => Mode::Scaled,
     };
     let tape = v
@@ -205,6 +206,7 @@ fn mode_name(m: Mode) -> &'static str {
     match m {
         Mode::Scaled => "scaled",
         Mode::Direct => "direct",
+        Mode::Bytes => "bytes",
     }
 }
 
@@ -500,6 +502,231 @@ fn run_random(def: &PropDef, r: &RandomDef, cfg: &RunCfg, listed: &BTreeSet<Stri
     }
 }
 
+/// Build one cargo-fuzz target of harness/fuzz (nightly, -O, ASan; overflow checks and debug assertions on).
+pub fn build_fuzz_target(verif_dir: &Path, name: &str) -> Result<PathBuf, String> {
+    use std::process::Command;
+    let fuzz_dir = verif_dir.join("harness").join("fuzz");
+    if !fuzz_dir.join("Cargo.toml").exists() {
+        return Err("fuzz package missing".into());
+    }
+    let target_dir = fuzz_dir.join("target");
+    let build = Command::new("cargo")
+        .args(["+nightly", "fuzz", "build", "-O", name])
+        .current_dir(&fuzz_dir)
+        .env("CARGO_NET_OFFLINE", "true")
+        .env("CARGO_TARGET_DIR", &target_dir)
+        .output();
+    match build {
+        Ok(o) if o.status.success() => {}
+        Ok(o) => {
+            return Err(format!(
+                "cargo fuzz build failed: {}",
+                String::from_utf8_lossy(&o.stderr).lines().rev().take(5).collect::<Vec<_>>().join(" | ")
+            ))
+        }
+        Err(e) => return Err(format!("cargo fuzz not runnable: {}", e)),
+    }
+    let bin = target_dir.join("x86_64-unknown-linux-gnu/release").join(name);
+    if !bin.exists() {
+        return Err(format!("fuzz binary not found at {}", bin.display()));
+    }
+    Ok(bin)
+}
+
+/// Thorough tier: coverage-guided search (libFuzzer) over the choice tapes of every random stage of the property,
+/// same decoder, same oracle. A saved artifact is replayed in-process, shrunk and reported like any other failure.
+#[cfg(feature = "pbt")]
+fn run_tapefuzz(def: &PropDef, cfg: &RunCfg, listed: &BTreeSet<String>, total: &mut Stats) -> (Vec<Value>, Vec<Violation>) {
+    use std::process::Command;
+    let mut infos = vec![];
+    let mut viols = vec![];
+    if cfg.tier != Tier::Thorough || def.randoms.is_empty() {
+        return (infos, viols);
+    }
+    if std::env::var("VERIF_TAPEFUZZ").ok().as_deref() == Some("0") {
+        infos.push(json!({"stage": "tapefuzz", "ran": false, "reason": "disabled by VERIF_TAPEFUZZ=0"}));
+        return (infos, viols);
+    }
+    let bin = match build_fuzz_target(&cfg.verif_dir, "tapefuzz") {
+        Ok(b) => b,
+        Err(e) => {
+            infos.push(json!({"stage": "tapefuzz", "ran": false, "reason": e}));
+            return (infos, viols);
+        }
+    };
+    let runs: u64 = std::env::var("VERIF_TAPEFUZZ_RUNS").ok().and_then(|s| s.parse().ok()).unwrap_or(120_000);
+    let max_time: u64 = std::env::var("VERIF_TAPEFUZZ_MAX_S").ok().and_then(|s| s.parse().ok()).unwrap_or(600);
+    let workers = cfg.threads.max(1);
+    for r in def.randoms {
+        let exec = r.exec.unwrap_or(def.exec);
+        let work = cfg
+            .verif_dir
+            .join("harness/fuzz/work")
+            .join(format!("{}-{}-seed{}-{}", def.id, r.name, cfg.seed, std::process::id()));
+        let _ = std::fs::remove_dir_all(&work);
+        let corpus = work.join("corpus");
+        let out = work.join("out");
+        let _ = std::fs::create_dir_all(&corpus);
+        let _ = std::fs::create_dir_all(&out);
+        // seed corpus: deterministic pseudo-random tapes, the all-zero tape, and the committed regression tapes of this stage
+        let seeds = super::tapefuzz::seed_corpus(mix(cfg.seed, super::tape::hash_bytes(def.id.as_bytes())), r.tape_len * 2, 48);
+        for (i, s) in seeds.iter().enumerate() {
+            let _ = std::fs::write(corpus.join(format!("seed{:03}", i)), s);
+        }
+        let cov_dir = cfg.verif_dir.join("corpus").join(def.id);
+        let mut n_cov = 0;
+        if let Ok(rd) = std::fs::read_dir(&cov_dir) {
+            for e in rd.flatten() {
+                if let Ok((Mode::Bytes, tape, stage)) = parse_replay(&e.path()) {
+                    if stage.as_deref() == Some(r.name) {
+                        let b: Vec<u8> = tape.iter().map(|v| *v as u8).collect();
+                        let _ = std::fs::write(corpus.join(format!("reg{:03}", n_cov)), b);
+                        n_cov += 1;
+                    }
+                }
+            }
+        }
+        let mut handles = vec![];
+        for w in 0..workers {
+            let arts = work.join(format!("artifacts{}", w));
+            let _ = std::fs::create_dir_all(&arts);
+            let mut cmd = Command::new(&bin);
+            cmd.arg(&corpus)
+                .arg(format!("-artifact_prefix={}/", arts.display()))
+                .arg(format!("-runs={}", runs))
+                .arg(format!("-max_total_time={}", max_time))
+                .arg(format!("-seed={}", (cfg.seed.wrapping_mul(64) + w as u64 + 1) & 0x7fff_ffff))
+                .arg(format!("-max_len={}", (r.tape_len * 2).max(64)))
+                .arg("-len_control=0")
+                .arg("-timeout=60")
+                .arg("-rss_limit_mb=6144")
+                .arg("-print_final_stats=1")
+                .env("HV_PROP", def.id)
+                .env("HV_STAGE", r.name)
+                .env("HV_OUT", &out)
+                .env("VERIF_DIR", &cfg.verif_dir)
+                .current_dir(&work);
+            handles.push((w, arts, std::thread::spawn(move || cmd.output())));
+        }
+        let mut execs = 0u64;
+        let mut crashed = 0usize;
+        let mut seen_tapes: BTreeSet<Vec<u32>> = BTreeSet::new();
+        let mut unreproduced = 0usize;
+        for (_w, arts, h) in handles {
+            let o = match h.join() {
+                Ok(Ok(o)) => o,
+                _ => continue,
+            };
+            let err = String::from_utf8_lossy(&o.stderr).to_string();
+            for line in err.lines() {
+                if let Some(v) = line.strip_prefix("stat::number_of_executed_units:") {
+                    execs += v.trim().parse::<u64>().unwrap_or(0);
+                }
+            }
+            if o.status.success() {
+                continue;
+            }
+            crashed += 1;
+            if let Ok(rd) = std::fs::read_dir(&arts) {
+                for e in rd.flatten() {
+                    let name = e.file_name().to_string_lossy().to_string();
+                    if !(name.starts_with("crash-") || name.starts_with("timeout-") || name.starts_with("oom-")) {
+                        continue;
+                    }
+                    let bytes = std::fs::read(e.path()).unwrap_or_default();
+                    let tape: Vec<u32> = bytes.iter().map(|b| *b as u32).collect();
+                    let mut st = Stats::new(listed.clone());
+                    st.recording = false;
+                    if run_case(exec, &tape, Mode::Bytes, &mut st).is_ok() {
+                        // a timeout / out-of-memory report of libFuzzer that is no oracle failure: inconclusive, not a violation
+                        unreproduced += 1;
+                        continue;
+                    }
+                    let small = super::tapefuzz::shrink(exec, tape, listed, 4_000);
+                    if !seen_tapes.insert(small.clone()) {
+                        continue;
+                    }
+                    let mut st = Stats::new(listed.clone());
+                    st.recording = false;
+                    st.want_desc = true;
+                    let message = match run_case(exec, &small, Mode::Bytes, &mut st) {
+                        Err(m) => m,
+                        Ok(()) => "(shrunk case passes on re-execution)".to_string(),
+                    };
+                    if viols.len() < 4 {
+                        viols.push(Violation {
+                            stage: r.name.to_string(),
+                            mode: Mode::Bytes,
+                            tape: small,
+                            message: format!("[found by coverage-guided tape fuzzing] {}", message),
+                            desc: st.desc.take(),
+                            from_file: None,
+                        });
+                    }
+                }
+            }
+        }
+        // worker statistics (written by the target at exit)
+        let mut f_evals = 0u64;
+        let mut f_nontrivial = 0u64;
+        let mut f_excluded = 0u64;
+        let mut f_classes: std::collections::BTreeMap<String, u64> = Default::default();
+        if let Ok(rd) = std::fs::read_dir(&out) {
+            for e in rd.flatten() {
+                if let Ok(s) = std::fs::read_to_string(e.path()) {
+                    if let Ok(v) = serde_json::from_str::<Value>(&s) {
+                        f_evals += v["evaluations"].as_u64().unwrap_or(0);
+                        f_nontrivial += v["distinct_nontrivial"].as_u64().unwrap_or(0);
+                        f_excluded += v["excluded_known"].as_u64().unwrap_or(0);
+                        if let Some(m) = v["classes"].as_object() {
+                            for (k, n) in m {
+                                *f_classes.entry(k.clone()).or_insert(0) += n.as_u64().unwrap_or(0);
+                            }
+                        }
+                        if let Some(a) = v["known_hits"].as_array() {
+                            for k in a {
+                                let e = total
+                                    .known_hits
+                                    .entry(k["key"].as_str().unwrap_or("").to_string())
+                                    .or_insert_with(|| (0, String::new()));
+                                e.0 += k["hits"].as_u64().unwrap_or(0);
+                                if e.1.is_empty() {
+                                    e.1 = k["first"].as_str().unwrap_or("").to_string();
+                                }
+                            }
+                        }
+                    }
+                }
+            }
+        }
+        let corpus_units = std::fs::read_dir(&corpus).map(|rd| rd.count()).unwrap_or(0);
+        // optionally keep the coverage corpus (for committing it as regression input)
+        if let Ok(keep) = std::env::var("VERIF_TAPEFUZZ_KEEP") {
+            let dst = PathBuf::from(keep).join(format!("{}-{}", def.id, r.name));
+            let _ = std::fs::create_dir_all(&dst);
+            let _ = Command::new(&bin)
+                .arg("-merge=1")
+                .arg(&dst)
+                .arg(&corpus)
+                .env("HV_PROP", def.id)
+                .env("HV_STAGE", r.name)
+                .env("VERIF_DIR", &cfg.verif_dir)
+                .current_dir(&work)
+                .output();
+        }
+        total.evals(f_evals.max(execs));
+        total.excluded(f_excluded);
+        infos.push(json!({"stage": format!("tapefuzz:{}", r.name), "kind": "coverage-guided (libFuzzer) search over the stage's choice tape, same decoder and oracle",
+            "ran": true, "workers": workers, "runs_per_worker": runs, "max_total_time_s": max_time, "executions": execs,
+            "evaluations": f_evals, "nontrivial_cases_distinct_per_worker_summed": f_nontrivial,
+            "corpus_units_with_new_coverage": corpus_units, "seed_units": seeds.len() + n_cov,
+            "workers_ended_by_a_failure": crashed, "timeouts_or_oom_not_reproduced_as_failures": unreproduced,
+            "classes": f_classes}));
+        let _ = std::fs::remove_dir_all(&work);
+    }
+    (infos, viols)
+}
+
 /// A stage whose property recorded no sample still shows what its cases look like: the first case it executed.
 fn fallback_sample(st: &mut Stats, exec: Exec, stage: &str, listed: &BTreeSet<String>) {
     if !st.samples.is_empty() {
@@ -555,6 +782,11 @@ pub fn run_property(def: &PropDef, cfg: &RunCfg) -> Outcome {
         if let Some(v) = out.violation {
             viols.push(v);
         }
+    }
+    {
+        let (infos, v) = run_tapefuzz(def, cfg, &listed, &mut total);
+        stages.extend(infos);
+        viols.extend(v);
     }
     if let Some(extra) = def.extra {
         let (info, v) = extra(cfg, &mut total);
